@@ -321,6 +321,10 @@ func matchFinding(leader *zenodb.DB, q *qspec, detail string) string {
 	if q.SubTbl != nil && q.SubTbl.coarse() && strings.Contains(planOf(leader, q.SubSQL), "cluster flat") {
 		return "C10-pushdown-groupbyall-coarse-table"
 	}
+	if q.HasLen && strings.Contains(planOf(leader, q.SQL), "cluster flat") {
+		// matcher of the C11 finding: some GROUP BY expression contains LEN( (pushed down)
+		return "C11-len-declared-one-to-one"
+	}
 	if q.Offset && strings.Contains(planOf(leader, q.SQL), "cluster flat") {
 		// matcher of the C11 finding: a pushed-down statement has OFFSET > 0
 		return "C11-offset-applied-twice"
@@ -433,11 +437,57 @@ func coarseWitness() (*config, []*qspec) {
 	return cfg, qs
 }
 
+// keyFnWitness is the built-in scenario of case index scriptedFrom+1 (mode equiv): a table
+// GROUP BY d, g partitioned by [d] on 3 partitions; 10 values of d share 2 first characters /
+// '-' parts, so a GROUP BY over SUBSTR / SPLIT / REPLACEALL / DECODE / CONCAT of the partition
+// key has groups spanning partitions and must NOT be pushed down whole (pushdownAllowed keeps
+// a key only through goexpr's WalkOneToOneParams); with HAVING / ORDER BY / LIMIT on top and
+// as the innermost FROM-subquery.
+func keyFnWitness() (*config, []*qspec) {
+	s, _ := schemaFromDef("t0", "a,b d,g")
+	t := &TableDef{S: s, PartitionBy: []string{"d"}}
+	if q, err := dbk.ParseTable(s); err == nil {
+		t.where, t.groupBy = q.Where, q.GroupBy
+	}
+	cfg := &config{P: 3, NLeaders: 1, PerPart: 1, Tables: []*TableDef{t}, FlushAt: map[int][][2]int{}}
+	ds := []string{"xa", "xb", "xc", "x-1", "x-2", "ya", "yb", "y-1", "yc-1", "x"}
+	for i := 0; i < 30; i++ {
+		cfg.Points = append(cfg.Points, dbk.Point{TS: dbk.Base.Add(time.Duration(i%4) * time.Second),
+			Dims: map[string]interface{}{"d": ds[i%len(ds)], "g": fmt.Sprint(i % 3)},
+			Vals: map[string]interface{}{"a": float64(i%5 + 1), "b": float64(i % 4)}})
+		cfg.LeaderOf = append(cfg.LeaderOf, 0)
+	}
+	var qs []*qspec
+	add := func(text string, order []string, limit int) {
+		q := &qspec{SQL: text, NoLimit: text, Table: t, Kind: "witness", OrderBy: order, Limit: limit}
+		if limit > 0 {
+			q.SQL = fmt.Sprintf("%s LIMIT %d", text, limit)
+		}
+		qs = append(qs, q)
+	}
+	add("SELECT f0, f1 FROM t0 GROUP BY SUBSTR(d, 0, 1) AS kd", nil, 0)
+	add("SELECT f0 FROM t0 GROUP BY SPLIT(d, '-', 0) AS kd, g", nil, 0)
+	add("SELECT _points, f0 FROM t0 GROUP BY REPLACEALL(d, '[abc0-9-]', '') AS kd, period(2s)", nil, 0)
+	add("SELECT f0 FROM t0 GROUP BY DECODE(d, 'x', 'X', 'other') AS kd", nil, 0)
+	add("SELECT f0 FROM t0 GROUP BY CONCAT('_', d, g) AS kdg", nil, 0)
+	add("SELECT f0 FROM t0 GROUP BY ANY(d, g) AS kdg", nil, 0)
+	add("SELECT f0, f1 FROM t0 GROUP BY SUBSTR(d, 0, 1) AS kd HAVING _points > 3 ORDER BY f0 DESC", []string{"-f0"}, 0)
+	add("SELECT f0 FROM t0 GROUP BY SUBSTR(d, 0, 1) AS kd, g ORDER BY f0, kd, g", []string{"f0", "kd", "g"}, 2)
+	add("SELECT f0 FROM (SELECT f0 FROM t0 GROUP BY SUBSTR(d, 0, 1) AS kd, g) GROUP BY kd", nil, 0)
+	add("SELECT f0 FROM (SELECT f0 FROM t0 GROUP BY SPLIT(d, '-', 0) AS kd) GROUP BY *", nil, 0)
+	add("SELECT f0 FROM t0 GROUP BY d", nil, 0)
+	return cfg, qs
+}
+
 func runEquivOn(ctx *hk.RunCtx, r *hk.Rng, idx uint64, nQueries int, grpc bool) (retry bool, err error) {
 	cfg := genConfig(r, 70)
 	var fixedQueries []*qspec
 	if idx == scriptedFrom {
 		cfg, fixedQueries = coarseWitness()
+		ctx.Res.Hit("scripted-scenario")
+	}
+	if idx == scriptedFrom+1 {
+		cfg, fixedQueries = keyFnWitness()
 		ctx.Res.Hit("scripted-scenario")
 	}
 	var c *Cluster
@@ -608,6 +658,38 @@ func runEquivOn(ctx *hk.RunCtx, r *hk.Rng, idx uint64, nQueries int, grpc bool) 
 		ctx.Res.Hit("q:" + q.Kind)
 		if d != "" {
 			fails = append(fails, propFail{"C10", fmt.Sprintf("query %q: %s", q.SQL, d), finding})
+		}
+	}
+	// queries of the class "GROUP BY expressions over partition keys", in every configuration
+	if fixedQueries == nil {
+		nKey := 8
+		if nQueries > 20 {
+			nKey = 16
+		}
+		var keyed []*TableDef
+		for _, t := range cfg.Tables {
+			if t.keyed() {
+				keyed = append(keyed, t)
+			}
+		}
+		for k := 0; k < nKey; k++ {
+			t := cfg.Tables[r.Intn(len(cfg.Tables))]
+			if len(keyed) > 0 && k%4 != 3 {
+				t = keyed[r.Intn(len(keyed))]
+			}
+			q := genKeyFnQuery(r, t, now)
+			ld := c.Leaders[r.Intn(len(c.Leaders))]
+			d, finding := compareQuery(ctx, ld.db, alone.DB, q)
+			ctx.Res.Hit("qk:" + q.Kind)
+			if t.keyed() {
+				ctx.Res.Hit("keyfn-on-keyed-table")
+				if strings.Contains(planOf(ld.db, q.SQL), "cluster flat") {
+					ctx.Res.Hit("keyfn-pushed-down")
+				}
+			}
+			if d != "" {
+				fails = append(fails, propFail{"C10", fmt.Sprintf("query %q: %s", q.SQL, d), finding})
+			}
 		}
 	}
 	for _, f := range fails {
